@@ -15,6 +15,12 @@ def gen_inputs(ctx):
     special = [44, 49, 84, 83696968]           # accounts that look like another path level
     intervals = [(0, 0), (0, 1), (5, 5), (7, 8), (2 ** 31 - 2, 2 ** 31), (5, 3)] + \
                 [(a, a + 3) for a in (rng.randrange(2 ** 31 - 4),)] + [(0, 4)]
+    # intervals that cross a power of two / of ten with start > 0 (row ORDER corners: container iteration
+    # order, textual sorting of the index) and one long interval
+    bounds = [8, 10, 16, 32, 64, 100, 128, 256, 1000, 1024, 4096, 10000, 65536, 2 ** 24, 2 ** 30]
+    crossing = [(b - 2, b + 2) for b in bounds] + [(6, 10), (28, 36), (3, 19)]
+    if q:
+        crossing = [(6, 10), (28, 36), (98, 102)] + [rng.choice(crossing)]
     n = 0
     for net in ("main", "test"):
         for k in range(3 if q else 30):
@@ -29,6 +35,8 @@ def gen_inputs(ctx):
                     combos = combos[:5] + [(0, (5, 3)), (2 ** 31 - 1, (2 ** 31 - 2, 2 ** 31))]
             if k in (0, 3):
                 combos += [(a, (0, 1)) for a in (special if (k == 0 or not q) else special[:0])]
+            if k == 1 or (not q and k == 4):
+                combos += [(rng.choice([0, 1, 66]), iv) for iv in (crossing if net == "main" or not q else crossing[:2])]
             for acct, (st, en) in combos:
                 inp = dict(src, net=net, account=acct, start=B(st.to_bytes(5, 'big')), end=B(en.to_bytes(5, 'big')), json=(k < 3 and n % 2 == 0))
                 n += 1
@@ -80,7 +88,7 @@ def run(ctx):
     r = ctx.mc("PaperWallet", cfg, label="toy-scale record tree: networks x accounts x intervals (incl. empty, single-row, start>end) x masters")
     d = r.tuples("DERIVABLE")
     ctx.notes["derivable_wallet_combinations"] = d[0][1] if d else 0
-    events = core.build_events(ctx, gen_inputs(ctx))
+    events = core.build_events(ctx, gen_inputs(ctx) if ctx.quick else core.rounds(ctx, gen_inputs, 3), procs=16)
     for e in events[:1] + events[-1:]:
         ctx.sample({"call": describe(e), "res": str(e["res"])[:300]})
     rj = ctx.validate(MODULE, events, min_shard=3)
